@@ -648,6 +648,19 @@ def install_seams(modules, patch, sim, net=None, env=None):
 		by_module[_random] = env
 		for n in ("randint", "randrange", "choice", "uniform", "getrandbits", "shuffle", "sample", "random"):
 			names[id(getattr(_random, n))] = getattr(env, n)
+	# synchronisation objects made while the module body ran (module level or class level: one
+	# object shared by every instance) were made by the real threading module
+	early = ((_threading.Event, thr.Event), (type(_threading.Lock()), thr.Lock), (type(_threading.RLock()), thr.RLock),
+		(_threading.Condition, thr.Condition), (_threading.BoundedSemaphore, thr.BoundedSemaphore),
+		(_threading.Semaphore, thr.Semaphore))
+
+	def early_object(holder, name, val):
+		for real, make in early:
+			if type(val) is real:
+				patch(holder, name, make())
+				return True
+		return False
+
 	for mod in modules:
 		for name, val in list(mod.__dict__.items()):
 			if name.startswith("__"):
@@ -661,6 +674,13 @@ def install_seams(modules, patch, sim, net=None, env=None):
 			rep = names.get(id(val))
 			if rep is not None and not isinstance(val, (int, float, str, bytes, tuple)):
 				patch(mod, name, rep)
+				continue
+			if early_object(mod, name, val):
+				continue
+			if isinstance(val, type) and getattr(val, "__module__", None) == mod.__name__:
+				for cname, cval in list(vars(val).items()):
+					if not cname.startswith("__"):
+						early_object(val, cname, cval)
 	return thr, tm
 
 
